@@ -42,6 +42,24 @@ def _cls_minor(data, finding):
     return n > 0 and not gen_nb.schema_errors(rest)
 
 
+@vlib.classifier('attachment-level')
+def _cls_attach(data, finding):
+    """the only schema errors are LOCAL_<mime> / REMOTE_<mime> entries with non-bundle values placed directly in
+    a cell's attachments (a conflict on a mime type inside one attachment was treated as a conflict on a file name)"""
+    if data.get('kind') != 'invalid':
+        return False
+    m = dec(data['merged'])
+    hit = False
+    for c in m['cells']:
+        at = c.get('attachments')
+        if isinstance(at, dict):
+            for k in list(at):
+                if k.startswith(('LOCAL_', 'REMOTE_')) and not isinstance(at[k], dict):
+                    del at[k]
+                    hit = True
+    return hit and not gen_nb.schema_errors(m)
+
+
 def check_merge(ctx, b, l, r, a, md, kinds):
     with mergelib.renderer(md):
         res = mergelib.run_merge(b, l, r, a)
